@@ -41,7 +41,8 @@ def monitor_counts():
 
 
 def plan(tier):
-    out = [('pair|near-6digits', _PER[tier])]
+    out = [('pair|near-6digits', _PER[tier]),
+           ('pair|tori-rotated-about-centre', _PER[tier])]
     for kind, fams in ELEMENTARY_FAMILIES.items():
         for fam in fams:
             out.append((f'{kind}|{fam}', _PER[tier]))
@@ -50,6 +51,11 @@ def plan(tier):
 
 def build(case):
     kind, fam = case.family.split('|')
+    if kind == 'pair' and fam == 'tori-rotated-about-centre':
+        # tori of equal radii about one centre that differ by their
+        # orientation only (TR cards): their loci differ
+        from .c13 import build_torus_pair
+        return build_torus_pair(case.rng)
     if kind == 'pair':
         from .c13 import build_near_pairs
         return build_near_pairs(case.rng)
